@@ -28,13 +28,43 @@ theorem topRegs_append (a b : List Entry) : topRegs (a ++ b) = topRegs a ++ topR
   | nil => rfl
   | cons e r ih => cases e <;> simp [topRegs, ih]
 
+theorem defFaults_append (a b : List Entry) : defFaults (a ++ b) = defFaults a ++ defFaults b := by
+  induction a with
+  | nil => rfl
+  | cons e r ih => cases e <;> simp [defFaults, ih]
+
+theorem blockNamesOf_defBlocks (l : List Name) : blockNamesOf (l.map Entry.defBlock) = [] := by
+  induction l with
+  | nil => rfl
+  | cons a r ih => simpa [blockNamesOf] using ih
+
+theorem anonLines_defBlocks (l : List Name) : anonLines (l.map Entry.defBlock) = [] := by
+  induction l with
+  | nil => rfl
+  | cons a r ih => simpa [anonLines] using ih
+
+theorem defNamesOf_defBlocks (l : List Name) : defNamesOf (l.map Entry.defBlock) = [] := by
+  induction l with
+  | nil => rfl
+  | cons a r ih => simpa [defNamesOf] using ih
+
+theorem topRegs_defBlocks (l : List Name) : topRegs (l.map Entry.defBlock) = [] := by
+  induction l with
+  | nil => rfl
+  | cons a r ih => simpa [topRegs] using ih
+
+theorem defFaults_defBlocks (l : List Name) : defFaults (l.map Entry.defBlock) = l.map Fault.inDef := by
+  induction l with
+  | nil => rfl
+  | cons a r ih => simp [defFaults, ih]
+
 mutual
 theorem mainBlocksN_eq (top : Bool) : ∀ n : Node, blockNamesOf (regionN top n) = mainBlocksN n
   | .text _ => by simp [regionN, mainBlocksN, blockNamesOf]
   | .call .. => by simp [regionN, mainBlocksN, blockNamesOf]
   | .attr .. => by simp [regionN, mainBlocksN, blockNamesOf]
   | .args => by simp [regionN, mainBlocksN, blockNamesOf]
-  | .defn _ _ _ => by cases top <;> simp [regionN, mainBlocksN, blockNamesOf]
+  | .defn _ _ _ => by cases top <;> simp [regionN, mainBlocksN, blockNamesOf, blockNamesOf_defBlocks]
   | .callTag _ => by simp [regionN, mainBlocksN, blockNamesOf]
   | .block (some b) _ k => by simp [regionN, mainBlocksN, blockNamesOf, mainBlocksL_eq false k]
   | .block none _ k => by simp [regionN, mainBlocksN, blockNamesOf, mainBlocksL_eq false k]
@@ -49,7 +79,7 @@ theorem anonLinesN_sub (top : Bool) : ∀ n : Node, (anonLines (regionN top n)).
   | .call .. => by simp [regionN, anonLines]
   | .attr .. => by simp [regionN, anonLines]
   | .args => by simp [regionN, anonLines]
-  | .defn _ _ _ => by cases top <;> simp [regionN, anonLines]
+  | .defn _ _ _ => by cases top <;> simp [regionN, anonLines, anonLines_defBlocks]
   | .callTag _ => by simp [regionN, anonLines]
   | .block (some b) _ k => by
     simp only [regionN, anonLines, allAnonLinesN]; exact anonLinesL_sub false k
@@ -68,7 +98,7 @@ theorem defNamesN_sub (top : Bool) : ∀ n : Node, (defNamesOf (regionN top n)).
   | .call .. => by simp [regionN, defNamesOf]
   | .attr .. => by simp [regionN, defNamesOf]
   | .args => by simp [regionN, defNamesOf]
-  | .defn _ _ _ => by cases top <;> simp [regionN, defNamesOf, allDefNamesN]
+  | .defn _ _ _ => by cases top <;> simp [regionN, defNamesOf, allDefNamesN, defNamesOf_defBlocks]
   | .callTag _ => by simp [regionN, defNamesOf]
   | .block (some b) _ k => by
     simp only [regionN, defNamesOf, allDefNamesN]; exact defNamesL_sub false k
@@ -326,12 +356,13 @@ theorem defsOf_topRegs_region : ∀ l : List Node, defsOfRegs (topRegs (regionL 
           | nblock b => simpa [topRegs, defsOfRegs] using h'
           | anon l => simpa [topRegs, defsOfRegs] using h'
           | ndef nm => simpa [topRegs, defsOfRegs] using h'
+          | defBlock b => simpa [topRegs, defsOfRegs] using h'
           | call => simpa [topRegs, defsOfRegs] using h'
       apply this
       exact noRdef k
     rw [regionL, topRegs_append, happ, ih]
     cases n with
-    | defn nm _ k => simp [regionN, topRegs, defsOfRegs, topDefNames]
+    | defn nm _ k => simp [regionN, topRegs, defsOfRegs, topDefNames, topRegs_defBlocks]
     | text _ => simp [regionN, topRegs, defsOfRegs, topDefNames]
     | call _ _ _ _ => simp [regionN, topRegs, defsOfRegs, topDefNames]
     | attr _ _ => simp [regionN, topRegs, defsOfRegs, topDefNames]
@@ -358,7 +389,12 @@ where
     | .call .. => by simp [regionN]
     | .attr .. => by simp [regionN]
     | .args => by simp [regionN]
-    | .defn _ _ _ => by simp [regionN]
+    | .defn _ _ _ => by
+      intro e he nm
+      simp only [regionN, List.mem_cons, List.mem_map, Bool.false_eq_true, if_false] at he
+      rcases he with he | ⟨b, _, he⟩
+      · subst he; simp
+      · subst he; simp
     | .callTag _ => by simp [regionN]
     | .block (some b) _ k => by
       intro e he nm
@@ -427,104 +463,90 @@ end
 
 /-! ### the nested traversals -/
 
-theorem scan_defn_nil (k : List Node) (ha : (allAnonLinesL k).Nodup) :
-    scan .defn (regionL false k) = [] ↔ mainBlocksL k = [] := by
-  simp [scan, dupLines_region false k ha, mainBlocksL_eq]
-
-theorem scan_call_nil (k : List Node) (ha : (allAnonLinesL k).Nodup) :
-    scan .call (regionL false k) = [] ↔ mainBlocksL k = [] := by
-  simp [scan, dupLines_region false k ha, mainBlocksL_eq]
-
-theorem scan_block_nil (k : List Node) (ha : (allAnonLinesL k).Nodup) :
-    scan .block (regionL false k) = [] := by
-  simp [scan, dupLines_region false k ha]
-
-theorem survives_of_nodup (rk : Root) (nm : Name) (ps : List (Name × Option Val)) (k rest : List Node)
-    (h : (allDefNamesL (.defn nm ps k :: rest)).Nodup) : survives rk nm rest = true := by
-  simp only [allDefNamesL, allDefNamesN, List.cons_append, List.nodup_cons, List.mem_append, not_or] at h
-  have hr : nm ∉ allDefNamesL rest := h.1.2
-  cases rk with
-  | call => rfl
-  | main =>
-    simp only [survives, List.contains_eq_mem, Bool.not_eq_true', decide_eq_false_iff_not]
-    exact fun hm => hr ((topDefNames_sub rest).subset hm)
-  | defn =>
-    simp only [survives, List.contains_eq_mem, Bool.not_eq_true', decide_eq_false_iff_not]
-    exact fun hm => hr ((defNamesL_sub false rest).subset hm)
-  | block =>
-    simp only [survives, List.contains_eq_mem, Bool.not_eq_true', decide_eq_false_iff_not]
-    exact fun hm => hr ((defNamesL_sub false rest).subset hm)
-
 mutual
-theorem deepN_nil_iff (rk : Root) (rest : List Node) : ∀ n : Node,
-    (allDefNamesL (n :: rest)).Nodup → (allAnonLinesN n).Nodup →
-    (deepN rk rest n = [] ↔ misplacedN n = [])
-  | .text _ => by simp [deepN, misplacedN]
-  | .call .. => by simp [deepN, misplacedN]
-  | .attr .. => by simp [deepN, misplacedN]
-  | .args => by simp [deepN, misplacedN]
+/-- the faults raised for what lies *inside* a node - by `_reject_named_blocks` in the traversal that meets it and
+by the traversals of the callables generated for it - are none iff it holds no misplaced named block -/
+theorem deepN_nil_iff (rk : Root) (top : Bool) (rest : List Node) : ∀ n : Node, (allAnonLinesN n).Nodup →
+    (defFaults (regionN top n) = [] ∧ deepN rk rest n = [] ↔ misplacedN n = [])
+  | .text _ => by simp [deepN, misplacedN, regionN, defFaults]
+  | .call .. => by simp [deepN, misplacedN, regionN, defFaults]
+  | .attr .. => by simp [deepN, misplacedN, regionN, defFaults]
+  | .args => by simp [deepN, misplacedN, regionN, defFaults]
   | .defn nm ps k => by
-    intro hd ha
-    have hk : (allDefNamesL k).Nodup := by
-      simp only [allDefNamesL, allDefNamesN, List.cons_append, List.nodup_cons] at hd
-      exact (List.nodup_append.mp hd.2).1
+    intro ha
     simp only [allAnonLinesN] at ha
-    simp only [deepN, survives_of_nodup rk nm ps k rest hd, if_true, List.append_eq_nil_iff, misplacedN,
-      scan_defn_nil k ha, deepL_nil_iff .defn k hk ha, allBlocksL_nil_iff k]
+    have hreg : defFaults (regionN top (.defn nm ps k)) = (allBlocksL k).map Fault.inDef := by
+      cases top <;> simp [regionN, defFaults, defFaults_defBlocks]
+    rw [hreg]
+    simp only [misplacedN, List.map_eq_nil_iff]
+    constructor
+    · intro h; exact h.1
+    · intro h
+      refine ⟨h, ?_⟩
+      have hk := (allBlocksL_nil_iff k).mp h
+      have ih := (deepL_nil_iff .defn false k ha).mpr hk.2
+      simp only [deepN]
+      split
+      · simp [scan, mainBlocksL_eq, hk.1, ih.1, ih.2, dupLines_region false k ha]
+      · rfl
   | .callTag k => by
-    intro hd ha
-    have hk : (allDefNamesL k).Nodup := by
-      simp only [allDefNamesL, allDefNamesN] at hd
-      exact (List.nodup_append.mp hd).1
+    intro ha
     simp only [allAnonLinesN] at ha
-    simp only [deepN, List.append_eq_nil_iff, misplacedN,
-      scan_call_nil k ha, deepL_nil_iff .call k hk ha, allBlocksL_nil_iff k]
+    have ih := deepL_nil_iff .call false k ha
+    simp only [regionN, defFaults, deepN, scan, misplacedN, true_and, List.append_eq_nil_iff,
+      List.map_eq_nil_iff, mainBlocksL_eq, dupLines_region false k ha, and_true, allBlocksL_nil_iff k]
+    constructor
+    · intro ⟨⟨h1, h2⟩, h3⟩; exact ⟨h1, ih.mp ⟨h2, h3⟩⟩
+    · intro ⟨h1, h2⟩; have := ih.mpr h2; exact ⟨⟨h1, this.1⟩, this.2⟩
   | .block (some b) ln k => by
-    intro hd ha
-    have hk : (allDefNamesL k).Nodup := by
-      simp only [allDefNamesL, allDefNamesN] at hd
-      exact (List.nodup_append.mp hd).1
+    intro ha
     simp only [allAnonLinesN] at ha
-    simp only [deepN, List.append_eq_nil_iff, misplacedN, scan_block_nil k ha, true_and,
-      deepL_nil_iff .block k hk ha]
+    have ih := deepL_nil_iff .block false k ha
+    simp only [regionN, defFaults, deepN, scan, misplacedN, List.nil_append, List.append_eq_nil_iff,
+      dupLines_region false k ha, and_true]
+    constructor
+    · intro ⟨h1, _, h3⟩; exact ih.mp ⟨h1, h3⟩
+    · intro h; have := ih.mpr h; exact ⟨this.1, this.1, this.2⟩
   | .block none ln k => by
-    intro hd ha
-    have hk : (allDefNamesL k).Nodup := by
-      simp only [allDefNamesL, allDefNamesN] at hd
-      exact (List.nodup_append.mp hd).1
+    intro ha
     simp only [allAnonLinesN, List.nodup_cons] at ha
-    simp only [deepN, List.append_eq_nil_iff, misplacedN, scan_block_nil k ha.2, true_and,
-      deepL_nil_iff .block k hk ha.2]
-theorem deepL_nil_iff (rk : Root) : ∀ l : List Node,
-    (allDefNamesL l).Nodup → (allAnonLinesL l).Nodup →
-    (deepL rk l = [] ↔ misplacedL l = [])
-  | [] => by simp [deepL, misplacedL]
+    have ih := deepL_nil_iff .block false k ha.2
+    simp only [regionN, defFaults, deepN, scan, misplacedN, List.nil_append, List.append_eq_nil_iff,
+      dupLines_region false k ha.2, and_true]
+    constructor
+    · intro ⟨h1, _, h3⟩; exact ih.mp ⟨h1, h3⟩
+    · intro h; have := ih.mpr h; exact ⟨this.1, this.1, this.2⟩
+theorem deepL_nil_iff (rk : Root) (top : Bool) : ∀ l : List Node, (allAnonLinesL l).Nodup →
+    (defFaults (regionL top l) = [] ∧ deepL rk l = [] ↔ misplacedL l = [])
+  | [] => by simp [deepL, misplacedL, regionL, defFaults]
   | n :: r => by
-    intro hd ha
-    have hr : (allDefNamesL r).Nodup := by
-      simp only [allDefNamesL] at hd
-      exact (List.nodup_append.mp hd).2.1
+    intro ha
     simp only [allAnonLinesL] at ha
     have han := (List.nodup_append.mp ha).1
     have har := (List.nodup_append.mp ha).2.1
-    simp only [deepL, misplacedL, List.append_eq_nil_iff, deepN_nil_iff rk r n hd han,
-      deepL_nil_iff rk r hr har]
+    have h1 := deepN_nil_iff rk top r n han
+    have h2 := deepL_nil_iff rk top r har
+    simp only [regionL, defFaults_append, deepL, misplacedL, List.append_eq_nil_iff, ← h1, ← h2]
+    constructor
+    · intro ⟨⟨a, b⟩, c, d⟩; exact ⟨⟨a, c⟩, b, d⟩
+    · intro ⟨⟨a, c⟩, b, d⟩; exact ⟨⟨a, b⟩, c, d⟩
 end
 
 /-- `check` finds no fault iff block names are unique, no named block sits under a def or call, and no
-template-level def shares its name with a block - provided no def is replaced by a later def of the same name
-and no two anonymous blocks share a source line -/
-theorem check_nil_iff (l : List Node) (hd : (allDefNamesL l).Nodup) (ha : (allAnonLinesL l).Nodup) :
+template-level def shares its name with a block - provided no two anonymous blocks share a source line -/
+theorem check_nil_iff (l : List Node) (ha : (allAnonLinesL l).Nodup) :
     check l = [] ↔
       (allBlocksL l).Nodup ∧ misplacedL l = [] ∧ ∀ x ∈ topDefNames l, x ∉ allBlocksL l := by
-  simp only [check, scan, List.append_eq_nil_iff, dupLines_region true l ha, and_true,
-    deepL_nil_iff .main l hd ha, scanMain_names]
+  have hdeep := deepL_nil_iff .main true l ha
+  simp only [check, scan, List.append_eq_nil_iff, dupLines_region true l ha, and_true, scanMain_names]
   constructor
-  · intro ⟨⟨h1, h2⟩, h3⟩
+  · intro ⟨⟨⟨h1, h2⟩, hdf⟩, hdl⟩
+    have h3 := hdeep.mp ⟨hdf, hdl⟩
     rw [allBlocksL_eq_main l h3]
     exact ⟨h1, h3, h2⟩
   · intro ⟨h1, h3, h2⟩
     rw [allBlocksL_eq_main l h3] at h1 h2
-    exact ⟨⟨h1, h2⟩, h3⟩
+    have := hdeep.mpr h3
+    exact ⟨⟨⟨h1, h2⟩, this.1⟩, this.2⟩
 
 end MakoModel.Inherit
